@@ -13,7 +13,7 @@ Qed.
 
 Lemma cautious_exact (hint : option Z) :
   serde_cautious hint = match hint with Some h => Z.min h 4096 | None => 0 end.
-Proof. unfold serde_cautious, unwrap_or. destruct hint; reflexivity. Qed.
+Proof. unfold serde_cautious, unwrap_or. destruct hint; first [reflexivity | lia]. Qed.
 
 (* whatever the claimed hint, the table allocated before the first element has at most 8192 buckets *)
 Theorem prealloc_buckets_bound GW (hint : option Z) tsize talign b :
